@@ -74,6 +74,32 @@ def _ref2d(dim, P, BC):
     return np.array(cols).T
 
 
+def _ref2d_index_sums(dim, P, BC):
+    """periodic / zero-boundary convolution written out as index sums (PSF origin at size//2): also for a PSF that is larger than the image (several wraps)"""
+    s0, s1 = P.shape; c0, c1 = s0 // 2, s1 // 2
+    M = np.zeros((dim * dim, dim * dim))
+    for i in range(dim):
+        for j in range(dim):
+            for a in range(s0):
+                for b in range(s1):
+                    k, l = i - (a - c0), j - (b - c1)
+                    if BC == 'periodic': k %= dim; l %= dim
+                    elif not (0 <= k < dim and 0 <= l < dim): continue
+                    M[i * dim + j, k * dim + l] += P[a, b]
+    return M
+
+
+def deconv2d_large_psf(c, dim, BC, PSF):
+    """point-spread function LARGER than the image (the default 21 x 21 PSF on a small image; PSF_size > dim): the forward model is still the documented
+    convolution with the whole PSF (periodic: wrapped around as often as needed), and exactData = forward(exactSolution) (bounded stand-in: native)"""
+    tp, draws = c.pre
+    x = c.vec('x', dim * dim)
+    P = _psf_taps2d(*PSF)
+    c.eq('forward_model_is_documented_convolution', tp.model.forward(x), _ref2d_index_sums(dim, P, BC) @ x, tol=1e-9)
+    c.eq('exact_data_is_the_documented_operator_applied_to_exact_solution', np.asarray(tp.exactData, dtype=float).reshape(-1),
+         _ref2d_index_sums(dim, P, BC) @ np.asarray(tp.exactSolution, dtype=float).reshape(-1), tol=1e-9)
+
+
 def _consistency(c, tp, draws, noise_kind, noise_std, x):
     """shared clauses: exact data, noise, components, posterior"""
     model = tp.model
@@ -101,6 +127,10 @@ def deconv1d(c, dim, BC, PSF, noise_kind, legacy=False):
     P = PSF if isinstance(PSF, np.ndarray) else _psf_taps(*PSF) if isinstance(PSF, tuple) else None      # named PSFs: taps from the documented formula, not from the library's generator
     if P is not None and not legacy:
         c.eq('forward_model_is_documented_convolution', tp.model.forward(x), _ref1d(dim, P, BC) @ x, tol=1e-9, approx=True)
+    if P is not None and legacy:
+        # legacy (matrix) form with a custom PSF of length dim: the periodic convolution with the PSF centred at dim//2 - the operator the non-legacy form has
+        ref = np.array([[P[(i - j + dim // 2) % dim] for j in range(dim)] for i in range(dim)])
+        c.eq('forward_model_is_documented_convolution', tp.model.forward(x), ref @ x, tol=1e-9, approx=True)
     _consistency(c, tp, draws, noise_kind, 0.05, x)
 
 
@@ -228,6 +258,9 @@ def jobs(tier):
                              'Pbox', F1 + ([f'{T}:_createPSF_1D'] if isinstance(PSF, tuple) else []), pre=mk('Deconvolution1D', **opts), rtol=1e-7))
     J.append(Job('Deconvolution1D:legacy_circulant', lambda c: deconv1d(c, 6, 'periodic', None, 'gaussian', True), 'Pbox', F1 + [f'{T}:_getCirculantMatrix'],
                  pre=mk('Deconvolution1D', dim=6, use_legacy=True, noise_std=0.05), rtol=1e-7))
+    asym6 = np.array([0.02, 0.1, 0.3, 0.4, 0.15, 0.03])
+    J.append(Job('Deconvolution1D:legacy_circulant:custom_asymmetric_PSF', lambda c: deconv1d(c, 6, 'periodic', asym6, 'gaussian', True), 'Pbox', F1 + [f'{T}:_getCirculantMatrix'],
+                 pre=mk('Deconvolution1D', dim=6, PSF=asym6, use_legacy=True, noise_std=0.05), rtol=1e-7))
     F2 = [f'{T}:Deconvolution2D.__init__', f'{T}:_proj_forward_2D']
     a3 = np.array([[0.1, 0.2, 0.05], [0.05, 0.3, 0.1], [0.02, 0.1, 0.08]])
     for BC in ('periodic', 'zero') + (() if q else ('Neumann', 'Mirror', 'Nearest')):
@@ -239,6 +272,11 @@ def jobs(tier):
             if q and BC == 'zero' and nm in ('gauss3', 'defocus3'): continue
             J.append(Job(f'Deconvolution2D:BC={BC}:PSF={nm}:noise=gaussian', lambda c, BC=BC, PSF=PSF: deconv2d(c, 5, BC, PSF, 'gaussian'), 'Pbox', F2 + [f'{T}:_GaussPSF', f'{T}:_MoffatPSF', f'{T}:_DefocusPSF'],
                          pre=mk('Deconvolution2D', dim=5, PSF=PSF[0], PSF_size=PSF[1], PSF_param=PSF[2], BC=BC, noise_type='gaussian', noise_std=0.05, phantom=np.abs(np.arange(25.0).reshape(5, 5)) / 25 + 0.2), rtol=1e-7, timeout=600))
+    for (nm, PSF, dim) in (('gauss7', ('gauss', 7, 1.5), 4), ('moffat9', ('moffat', 9, 2.0), 4), ('gauss21', ('gauss', 21, 2.56), 5)):
+        for BC in ('periodic', 'zero'):
+            J.append(Job(f'Deconvolution2D:BC={BC}:PSF={nm}:larger_than_the_image:dim={dim}', lambda c, BC=BC, PSF=PSF, dim=dim: deconv2d_large_psf(c, dim, BC, PSF), 'B', F2,
+                         pre=mk('Deconvolution2D', dim=dim, PSF=PSF[0], PSF_size=PSF[1], PSF_param=PSF[2], BC=BC, noise_type='gaussian', noise_std=0.05,
+                                phantom=np.abs(np.arange(float(dim * dim)).reshape(dim, dim)) / (dim * dim) + 0.2), nnum=2))
     J.append(Job('Abel1D:dim=5', lambda c: abel(c, 5), 'Pbox', [f'{T}:Abel1D.__init__'], pre=mk('Abel1D', dim=5), rtol=1e-7))
     for ep in ((2.0,) if q else (0.5, 2.0, 3.0)):
         J.append(Job(f'Abel1D:dim=6:endpoint={ep}', lambda c, ep=ep: abel(c, 6, ep), 'Pbox', [f'{T}:Abel1D.__init__'], pre=mk('Abel1D', dim=6, endpoint=ep), rtol=1e-7))
